@@ -888,7 +888,7 @@ func sameShared(a, b *Shared) bool {
 func init() {
 	core.Register(&core.Monitor{
 		Prop:    "C09",
-		Rule:    "first-use: per case 3-6 types the process has never seen (reflect.StructOf types whose first field name carries seed, case and type number; both halves of one of 240 declared mutually recursive type pairs, the second reached from the first through a map value and used on its own as well) with json, protobuf and thrift tags, one value each, and 17 calls per type (json.Marshal by value and pointer, MarshalIndent, Encoder, Unmarshal, Unmarshal of the document with its keys in another case or unknown, Tokenizer, a Tokenizer abandoned inside nested scopes followed by one over the whole document, Marshal of a map[string]any; proto.Marshal, Size, Unmarshal, TypeOf; thrift.Marshal and Unmarshal in both protocols). 2-32 goroutines, released together under GOMAXPROCS 2-16, each run all calls in their own order; the verif hooks yield 0-15 times at every codec-cache miss and store. Checked: every goroutine gets the same result for every call, and the identical proto.Type object; a sequential round afterwards gets it too; the digest of the results equals the digest of the same case run by one goroutine in a separate GOMAXPROCS=1 process (supervisor); the race detector reports nothing (race build, log scanned by the supervisor); the pool hooks never see a pooled object handed out while held or returned while not held. shared: 16 goroutines x 60 iterations of json/proto/thrift round trips of per-goroutine values of one shared type (maps with up to 12 entries). Evidence counts calls, hook events per pool and cache, overlapping constructions of one type, and distinct cache-event orders.",
+		Rule:    "first-use: per case 3-6 types the process has never seen (reflect.StructOf types whose first field name carries seed, case and type number; both halves of one of 240 declared mutually recursive type pairs, the second reached from the first through a map value and used on its own as well) with json, protobuf and thrift tags, one value each, and 17 calls per type (json.Marshal by value and pointer, MarshalIndent, Encoder, Unmarshal, Unmarshal of the document with its keys in another case or unknown, Tokenizer, a Tokenizer abandoned inside nested scopes followed by one over the whole document, Marshal of a map[string]any; proto.Marshal, Size, Unmarshal, TypeOf; thrift.Marshal and Unmarshal in both protocols). Per case also one type none of the packages can represent (every entry point fails or panics on it, recovered) and sorted-map encodes that fail half-way while holding pooled scratch space. 2-32 goroutines, released together under GOMAXPROCS 2-16, each run all calls in their own order; the verif hooks yield 0-15 times at every codec-cache miss and store. Checked: every goroutine gets the same result for every call, and the identical proto.Type object; a sequential round afterwards gets it too; the digest of the results equals the digest of the same case run by one goroutine in a separate GOMAXPROCS=1 process (supervisor); the race detector reports nothing (race build, log scanned by the supervisor); the pool hooks never see a pooled object handed out while held or returned while not held. shared: 16 goroutines x 60 iterations of json/proto/thrift round trips of per-goroutine values of one shared type (maps with up to 12 entries). Evidence counts calls, hook events per pool and cache, overlapping constructions of one type, and distinct cache-event orders.",
 		Trusted: []string{"the Go race detector for the no-data-race clause", "the solo process as the 'running alone' reference", "sync.Pool itself (the hook observes the package's use of it)"},
 		Subs: []core.Sub{
 			{Name: "first-use", N: core.Const(240, 2400), Run: runCase, Serial: true},
